@@ -160,6 +160,18 @@ def configs(thorough, seed):
                     'seed': seed, 'kfac': k, 'x_mult': 40.0,
                     'loss_mult': 0.1, 'sgd_lr': 0.0,
                     'history': [['train']] * 3})
+    # a layer with fewer backward than forward passes inside the window
+    # (two heads, one of them reaching the loss per micro-batch): G is the
+    # mean over the backward passes it saw
+    for dec, fdt in itertools.product([0.5, 0.95], [None, 'f64']):
+        k = dict(factor_update_steps=1, inv_update_steps=1, damping=0.1,
+                 factor_decay=dec, kl_clip=1e-3, lr=0.1,
+                 accumulation_steps=2, update_factors_in_hook=False)
+        if fdt:
+            k['factor_dtype'] = fdt
+        out.append({'model': 'twohead', 'dtype': 'f32', 'batch': 2,
+                    'world': 1, 'seed': seed, 'kfac': k,
+                    'history': [['train']] * 3})
     # distributed: mean over ranks
     for model, world, acc, hook, bucket, sym in itertools.product(
             ['mlp3', 'conv'], (2, 3), (1, 2), (True, False), (0.0, 25.0),
